@@ -1,0 +1,79 @@
+//! Verification hooks, only compiled with `--cfg oxidd_verif`
+//!
+//! An exploration harness can install callbacks that are invoked right before
+//! synchronisation operations of the manager implementations (lock
+//! acquisitions, try-locks, phases of the garbage collection, fork/join of the
+//! parallel apply algorithms). Without installed callbacks, all functions in
+//! this module are no-ops.
+
+use std::sync::OnceLock;
+
+/// Kinds of scheduling points
+#[allow(missing_docs)]
+pub mod class {
+    pub const LEVEL_LOCK: u32 = 1;
+    pub const STORE_STATE_LOCK: u32 = 2;
+    pub const MANAGER_SHARED: u32 = 3;
+    pub const MANAGER_EXCLUSIVE: u32 = 4;
+    pub const TERMINAL_LOCK: u32 = 5;
+    pub const CACHE_LOCK: u32 = 6;
+    pub const CACHE_TRY_LOCK: u32 = 7;
+    pub const GC_TRY_LOCK: u32 = 8;
+    pub const GC_PHASE: u32 = 9;
+    pub const HANDLE_CLONE: u32 = 10;
+    pub const HANDLE_DROP: u32 = 11;
+    pub const OTHER_LOCK: u32 = 12;
+}
+
+/// Callbacks installed by the harness
+pub struct Hooks {
+    /// Scheduling point without a blocking condition
+    pub point: fn(class: u32, resource: usize),
+    /// Scheduling point in front of a blocking acquisition. The callback must
+    /// only return once `ready()` is true (and no other controlled thread runs
+    /// until the caller reaches its next scheduling point).
+    pub acquire: fn(class: u32, resource: usize, ready: &(dyn Fn() -> bool + Sync)),
+    /// Whether the current thread is controlled by the harness
+    pub controlled: fn() -> bool,
+    /// Run `a` on the current thread and `b` on a new controlled thread, return
+    /// when both are done
+    pub join: fn(a: &mut (dyn FnMut() + Send), b: &mut (dyn FnMut() + Send)),
+}
+
+static HOOKS: OnceLock<Hooks> = OnceLock::new();
+
+/// Install the callbacks (once per process)
+pub fn install(hooks: Hooks) -> bool {
+    HOOKS.set(hooks).is_ok()
+}
+
+/// Scheduling point without a blocking condition
+#[inline]
+pub fn point(class: u32, resource: usize) {
+    if let Some(h) = HOOKS.get() {
+        (h.point)(class, resource)
+    }
+}
+
+/// Scheduling point in front of a blocking acquisition
+#[inline]
+pub fn acquire(class: u32, resource: usize, ready: &(dyn Fn() -> bool + Sync)) {
+    if let Some(h) = HOOKS.get() {
+        (h.acquire)(class, resource, ready)
+    }
+}
+
+/// Whether the current thread is controlled by an installed harness
+#[inline]
+pub fn controlled() -> bool {
+    match HOOKS.get() {
+        Some(h) => (h.controlled)(),
+        None => false,
+    }
+}
+
+/// Fork/join through the harness. Must only be called if [`controlled()`]
+/// returns true.
+pub fn join(a: &mut (dyn FnMut() + Send), b: &mut (dyn FnMut() + Send)) {
+    (HOOKS.get().expect("no hooks installed").join)(a, b)
+}
